@@ -12,7 +12,7 @@ EXTRA = {  # additional checks expected to notice the defect
     "e9657d0": ["C14"], "d889618": ["C14"], "7cd4507": ["C04"], "dc07110": ["C04"], "91a2486": ["C06"],
     "b0cde41": ["C04"], "308b00d": ["C05"], "3b76bd2": ["C01"], "a0629a8": ["C11"], "bf61b9d": ["C16"],
     "d68c989": ["C16"], "7c90970": ["C16"], "2bce44c": ["C16"], "982a8c2": ["C20"], "84bd0fb": ["C17"],
-    "0605be9": ["C17"], "f96394a": ["C15"], "e71f868": ["C15"],
+    "0605be9": ["C17"], "f96394a": ["C15"], "e71f868": ["C15"], "bbc51a4": ["C07"],
 }
 
 
@@ -23,7 +23,7 @@ def sh(cmd, **kw):
 def main():
     kf = json.load(open(os.path.join(VERIF, "known_findings.json")))["findings"]
     todo = [f for f in kf if f["status"] == "fixed" and (not sys.argv[1:] or f["commit"] in sys.argv[1:])]
-    done = {"9f6e9a8", "69ed09f"} if not sys.argv[1:] else set()
+    done = set()
     todo = [f for f in todo if f["commit"] not in done]
     results = {}
     for f in todo:
